@@ -222,7 +222,7 @@ pub struct ProcResult<T> {
     pub reads: Vec<(String, Vec<u8>)>,
 }
 
-pub const WATCHDOG: Duration = Duration::from_secs(60);
+pub const WATCHDOG: Duration = Duration::from_secs(20);
 
 fn panic_message(p: Box<dyn std::any::Any + Send>) -> String {
     if let Some(s) = p.downcast_ref::<&str>() {
